@@ -264,7 +264,7 @@ def run_replay(cases_path, name="replay", jobs=1, timeout=3600):
     out.crashes = []
     out.n_obs = 0
     out.obs_path = os.path.join(wdir, "events.ndjson")
-    obs_fh = open(out.obs_path, "w")
+    obs_fh = open(out.obs_path, "w", errors="replace")
     t0 = time.time()
     start = 0
     summaries = []
@@ -278,7 +278,7 @@ def run_replay(cases_path, name="replay", jobs=1, timeout=3600):
         if r.returncode == 2:
             raise ToolError("harness error: " + r.stderr.decode(errors="replace")[-2000:])
         if os.path.exists(res_path):
-            with open(res_path) as fh:
+            with open(res_path, errors="replace") as fh:
                 for line in fh:
                     if not line.strip():
                         continue
@@ -368,17 +368,47 @@ def run_trace(events_path, name="trace", spec="trace/Trace_Events", workers=8, t
     return n, bad, r
 
 
+def _drive(args, wdir):
+    """Run the drive binary; if it dies (abort / signal) return the call that was in flight."""
+    prog = os.path.join(wdir, "pending.json")
+    r = sh([os.path.join(BIN, "drive")] + args, env={"DRIVE_PROGRESS": prog}, stdout=subprocess.PIPE,
+           stderr=subprocess.PIPE, timeout=3600)
+    crash = None
+    if r.returncode == 2:
+        raise ToolError("drive usage error: " + r.stderr.decode(errors="replace")[-1000:])
+    if r.returncode != 0:
+        try:
+            crash = json.loads(open(prog, errors="replace").read())
+        except Exception:
+            raise ToolError("drive died (exit %d) outside a call: %s" % (r.returncode, r.stderr.decode(errors="replace")[-1000:]))
+        crash["msg"] = (crash.get("msg", "") + " | " + r.stderr.decode(errors="replace")[-300:]).strip()
+    return r.stdout.decode(errors="replace").strip(), crash
+
+
+LAST_DRIVE_CRASH = {}
+
+
+def run_drive_big(name):
+    """Very large inputs (up to 1 MB): structural observations."""
+    wdir = os.path.join(WORK, "drive", name)
+    shutil.rmtree(wdir, ignore_errors=True)
+    os.makedirs(wdir)
+    out = os.path.join(wdir, "events.ndjson")
+    cnt, crash = _drive(["big", "0", "0", out], wdir)
+    LAST_DRIVE_CRASH[out] = crash
+    log("drive  %-26s %9s big-input events recorded%s" % (name, cnt, "  PROCESS DIED in a call" if crash else ""))
+    return out
+
+
 def run_drive_sessions(name, n, seed_offset=0):
     """Sessions of 5-40 calls through ONE path / authority handle of the real code, recorded as events."""
     wdir = os.path.join(WORK, "drive", name)
     shutil.rmtree(wdir, ignore_errors=True)
     os.makedirs(wdir)
     out = os.path.join(wdir, "events.ndjson")
-    r = sh([os.path.join(BIN, "drive"), "sessions", str(seed() + seed_offset), str(n), out],
-           stdout=subprocess.PIPE, stderr=subprocess.PIPE, timeout=3600)
-    if r.returncode != 0:
-        raise ToolError("drive sessions failed: " + r.stderr.decode(errors="replace")[-2000:])
-    log("drive  %-26s %9s session events recorded (%d sessions)" % (name, r.stdout.decode().strip(), n))
+    cnt, crash = _drive(["sessions", str(seed() + seed_offset), str(n), out], wdir)
+    LAST_DRIVE_CRASH[out] = crash
+    log("drive  %-26s %9s session events recorded (%d sessions)%s" % (name, cnt, n, "  PROCESS DIED in a call" if crash else ""))
     return out
 
 
@@ -390,17 +420,27 @@ def run_trace_sessions(events_path, name, procs=8, timeout=7200):
     wdir = os.path.join(WORK, "trace", name)
     shutil.rmtree(wdir, ignore_errors=True)
     os.makedirs(wdir)
-    parts = [[] for _ in range(procs)]
-    k = -1
+    # group the lines by session, then deal the sessions out greedily by weight (long texts cost more)
+    sessions = []
     n = 0
-    with open(events_path) as fh:
+    with open(events_path, errors="replace") as fh:
         for line in fh:
             if not line.strip():
                 continue
-            if json.loads(line).get("ev", "").startswith("open_"):
-                k += 1
-            parts[max(k, 0) % procs].append(line)
+            try:
+                is_open = json.loads(line).get("ev", "").startswith("open_")
+            except ValueError:
+                continue          # last line cut by a crash of the driver
+            if is_open or not sessions:
+                sessions.append([])
+            sessions[-1].append(line)
             n += 1
+    parts = [[] for _ in range(procs)]
+    load = [0] * procs
+    for sess in sorted(sessions, key=lambda ls: -sum(len(l) ** 2 for l in ls)):
+        i = load.index(min(load))
+        parts[i].extend(sess)
+        load[i] += sum(len(l) ** 2 for l in sess)
     if n == 0:
         return 0, [], []
     running = []
@@ -466,11 +506,9 @@ def run_drive(name, histories, steps, seed_offset=0):
     shutil.rmtree(wdir, ignore_errors=True)
     os.makedirs(wdir)
     out = os.path.join(wdir, "events.ndjson")
-    r = sh([os.path.join(BIN, "drive"), str(seed() + seed_offset), str(histories), str(steps), out],
-           stdout=subprocess.PIPE, stderr=subprocess.PIPE, timeout=3600)
-    if r.returncode != 0:
-        raise ToolError("drive failed: " + r.stderr.decode(errors="replace")[-2000:])
-    log("drive  %-26s %9s events recorded (%d histories x <=%d calls)" % (name, r.stdout.decode().strip(), histories, steps))
+    cnt, crash = _drive([str(seed() + seed_offset), str(histories), str(steps), out], wdir)
+    LAST_DRIVE_CRASH[out] = crash
+    log("drive  %-26s %9s events recorded (%d histories x <=%d calls)%s" % (name, cnt, histories, steps, "  PROCESS DIED in a call" if crash else ""))
     return out
 
 
